@@ -145,6 +145,7 @@ func run(param json.RawMessage, ctx *explore.Ctx, viols *[]xrun.Viol) string {
 	touched := map[string]string{} // "dbi/key" -> what the application did last ("put:<hex>" | "del" | "expired-marker")
 	nOps := 0
 	boundary := 0
+	secondPass := false
 	conf := config.Sweeper{Enabled: true, RetentionDays: 2, Interval: time.Hour, FirstInterval: time.Hour, LockDuration: time.Hour, ReleaseDuration: 104 * time.Millisecond}
 	verifhook.SetInt(func(site string, v int) int {
 		if site == "limitscanner.records" && c.Slice > 0 {
@@ -167,7 +168,7 @@ func run(param json.RawMessage, ctx *explore.Ctx, viols *[]xrun.Viol) string {
 		return []string{"a", "b", "c", "d"}
 	}
 	verifhook.SetYield(func(point, name string) {
-		if point != "sweeper.betweenSlices" || !c.AppOps {
+		if point != "sweeper.betweenSlices" || !c.AppOps || secondPass {
 			return
 		}
 		boundary++
@@ -223,6 +224,15 @@ func run(param json.RawMessage, ctx *explore.Ctx, viols *[]xrun.Viol) string {
 	})
 	sw := sweeper.New("db", conf, env.Env, quiet, c.Native)
 	serr := sw.VerifSweepOnce(context.Background())
+	dump := env.RawDump()
+	// a second pass of the same sweeper, undisturbed: whatever expired marker the application wrote behind the
+	// scan position of the first pass must be gone after it
+	secondPass = true
+	var serr2 error
+	if serr == nil {
+		serr2 = sw.VerifSweepOnce(context.Background())
+	}
+	dump2 := env.RawDump()
 	verifhook.SetYield(nil)
 	verifhook.SetInt(nil)
 	verifhook.SetNow(nil)
@@ -232,8 +242,22 @@ func run(param json.RawMessage, ctx *explore.Ctx, viols *[]xrun.Viol) string {
 		add("sweep-error", desc+": "+serr.Error())
 		return "error"
 	}
+	if serr2 != nil {
+		add("sweep-error", desc+" (second pass): "+serr2.Error())
+		return "error"
+	}
+	cut2 := uint64(fixedNow.Add(-retention).UnixNano())
+	for _, d := range dump2 {
+		if !c.Native && !strings.HasPrefix(d.Name, world.ShadowPrefix) {
+			continue
+		}
+		for _, e := range d.Entries {
+			if h, _, err := world.ReadHdr(e.Val); err == nil && h.Flags&1 != 0 && h.TS < cut2 {
+				add("expired-marker-survives-second-pass", fmt.Sprintf("%s: marker %s/%s (timestamp %d ns before the cutoff) is still present after a second, undisturbed pass of the same sweeper", desc, d.Name, e.Key, cut2-h.TS))
+			}
+		}
+	}
 	// compare
-	dump := env.RawDump()
 	got := map[string][]byte{}
 	for _, d := range dump {
 		for _, e := range d.Entries {
